@@ -20,6 +20,33 @@ type choicePoint struct {
 	cur  int     // index taken
 	tag  string
 	aux  uint64 // fork-specific data that must survive re-execution
+
+	// sharding state on entry to this fork: this worker is member inW of a group of inN
+	// workers that share the path so far
+	inW, inN int
+}
+
+// allowed reports whether alternative j of cp belongs to this worker's share.
+func (cp *choicePoint) allowed(j int) bool {
+	n := len(cp.alts)
+	switch {
+	case cp.inN <= 1:
+		return true
+	case n >= cp.inN:
+		return j%cp.inN == cp.inW
+	default:
+		return j == cp.inW%n
+	}
+}
+
+// after returns the sharding state below alternative j.
+func (cp *choicePoint) after(j int) (int, int) {
+	n := len(cp.alts)
+	if cp.inN <= 1 || n >= cp.inN {
+		return 0, 1
+	}
+	g := cp.inW % n
+	return cp.inW / n, (cp.inN - g + n - 1) / n
 }
 
 type pathEndKind int
@@ -75,7 +102,7 @@ type Explorer struct {
 	FactHits   int
 	fixed      map[string]int64 // nd variables pinned by -fix
 	shardW, shardN, shardDepth int
-	prefixCounter              int
+	curW, curN                 int // sharding state at the current point of the run
 	ndvars     []ndVar // nd variables created in the current run
 	ndseen     map[string]int
 
@@ -130,6 +157,10 @@ func (e *Explorer) beginRun() {
 	e.ndseen = map[string]int{}
 	e.steps = 0
 	e.depth = 0
+	e.curW, e.curN = e.shardW, e.shardN
+	if e.curN < 1 {
+		e.curW, e.curN = 0, 1
+	}
 	e.facts = map[*Term]bool{}
 	e.eqConst = map[*Term]uint64{}
 	e.neqConst = map[*Term]map[uint64]bool{}
@@ -212,6 +243,7 @@ func (e *Explorer) forkAux(tag string, alts []*Term, aux *uint64) int {
 				}
 			}
 		}
+		e.curW, e.curN = cp.after(cp.cur)
 		c := cp.alts[cp.cur]
 		if e.pos >= e.solver.level {
 			e.solver.Push()
@@ -223,18 +255,15 @@ func (e *Explorer) forkAux(tag string, alts []*Term, aux *uint64) int {
 		return cp.cur
 	}
 	// new fork
-	if e.shardN > 1 && e.pos == e.shardDepth {
-		e.prefixCounter++
-		if (e.prefixCounter-1)%e.shardN != e.shardW {
-			panic(pathEnd{peSkipped, "other shard"})
-		}
-	}
 	e.Forks++
-	cp := &choicePoint{alts: alts, tag: tag, cur: -1}
+	cp := &choicePoint{alts: alts, tag: tag, cur: -1, inW: e.curW, inN: e.curN}
 	if aux != nil {
 		cp.aux = *aux
 	}
 	for i, a := range alts {
+		if !cp.allowed(i) {
+			continue
+		}
 		if e.known(a) == -1 {
 			continue
 		}
@@ -249,8 +278,12 @@ func (e *Explorer) forkAux(tag string, alts []*Term, aux *uint64) int {
 		}
 	}
 	if cp.cur < 0 {
+		if cp.inN > 1 {
+			panic(pathEnd{peSkipped, "no alternative of this fork in this worker's share"})
+		}
 		panic(pathEnd{peInfeasible, "no feasible alternative at " + tag})
 	}
+	e.curW, e.curN = cp.after(cp.cur)
 	e.trail = append(e.trail, cp)
 	e.solver.Push()
 	e.addConstraint(alts[cp.cur])
@@ -467,6 +500,9 @@ func (e *Explorer) next() bool {
 		e.modelOK = false
 		found := -1
 		for j := cp.cur + 1; j < len(cp.alts); j++ {
+			if !cp.allowed(j) {
+				continue
+			}
 			v := e.feasible(cp.alts[j])
 			if v == Unknown {
 				e.Inconclusive++
